@@ -385,7 +385,24 @@ def rule_dirty(ctx: Ctx) -> None:
                 wbs = [k for k in calls_in(m.node) if path_of(k.func) == "self._write_back_if_dirty" and [path_of(a) for a in k.args] == [arg]]
                 ok = bool(wbs) and not always_before(ctx, m, lambda x: any(x is node_of(mf.cfg, k) for k in wbs), lambda x: x is node_of(mf.cfg, c))
                 ctx.ob("C16-3", "G2", m, c, ok, "CachedStore._cache_put: an evicted entry is written back (if dirty) before it leaves the cache")
-    need(n_sites >= 5, f"C16-3: expected >= 5 dirty-mark removal sites in CachedStore, found {n_sites}")
+    need(n_sites >= 4, f"C16-3: expected >= 4 dirty-mark removal sites in CachedStore, found {n_sites}")
+    # no asynchronous store write of write-back data: a value captured before a suspension and sent with the suspending put() can land
+    # after - and overwrite - a newer value written back synchronously meanwhile.  The only suspending store write is the write-through
+    # branch of put(), which is announced as in flight.
+    n_async = 0
+    for m in cs.methods.values():
+        mf = ctx.flow(m)
+        for c in calls_in(m.node):
+            if path_of(c.func) == "self._backing_store.put":
+                n_async += 1
+                ok = m.name == "put" and mf.holds_at(node_of(mf.cfg, c), Fact("truthy", "self._write_through"))
+                ctx.ob("C16-3", "G5", m, c, ok, f"CachedStore.{m.name}: the suspending backing-store put is used only for write-through (write-back data is written with put_sync at the moment it lands, never from a value captured before a suspension)")
+    fl = cs.methods["flush"]
+    wbc = [c for c in calls_in(fl.node) if path_of(c.func) == "self._write_back_if_dirty"]
+    lat = [n for n in ctx.flow(fl).cfg.nodes if n.kind == "stmt" and isinstance(n.ast, ast.Expr) and isinstance(n.ast.value, ast.Yield) and unparse(n.ast.value.value) == "self._backing_store.write_latency"]
+    ok = len(wbc) == 1 and len(lat) == 1 and [path_of(a) for a in wbc[0].args] == [path_of([s for s in walk_stmts(fl.node.body) if isinstance(s, ast.For)][0].target)] \
+        and not always_before(ctx, fl, lambda x: x is lat[0], lambda x: x is node_of(ctx.flow(fl).cfg, wbc[0])) and _no_suspension_between(ctx, fl, lambda n: n is lat[0], node_of(ctx.flow(fl).cfg, wbc[0]))
+    ctx.ob("C16-3", "G5", fl, wbc[0] if wbc else None, ok, "CachedStore.flush pays the store's write latency and then writes back whatever is cached and still dirty at that moment")
     put = prog.func(CS, "CachedStore.put")
     pf = ctx.flow(put)
     adds = [c for c in calls_in(put.node) if path_of(c.func) == "self._dirty_keys.add"]
@@ -535,6 +552,25 @@ def rule_fill(ctx: Ctx) -> None:
         ok = ok and not always_before(ctx, mp, lambda x: x is b, lambda x: x is i) and not always_before(ctx, mp, lambda x: x.kind == "for" and x.ast is lp[0], lambda x: x is l) \
             and _no_suspension_between(ctx, mp, lambda n: n is b, i) and _no_suspension_between(ctx, mp, lambda n: n is b, l)
     ctx.ob("C16-4", "G2", mp, inv[0] if inv else None, ok, "MultiTierCache.put writes the store, then invalidates the key in every tier and starts the L1 write in that same step")
+    md = prog.func(MT, "MultiTierCache.delete")
+    mdf = ctx.flow(md)
+    bdel = [n for n in mdf.cfg.nodes if any(isinstance(c, ast.Call) and path_of(c.func) == "self._backing_store.delete" for e in own_exprs(n) for c in walk_scope(e))]
+    invs = [n for n in mdf.cfg.nodes if any(isinstance(c, ast.Call) and path_of(c.func) == "tier.invalidate" for e in own_exprs(n) for c in walk_scope(e))]
+    ok = len(bdel) == 1
+    after = []
+    if ok:
+        # an invalidation loop that every path reaches after the store delete, with nothing suspending in between
+        lps = [s for s in md.node.body if isinstance(s, ast.For) and path_of(s.iter) == "self._tiers" and any(path_of(c.func) == "tier.invalidate" for c in calls_in(s))
+               and not any(isinstance(x, (ast.Break, ast.Continue, ast.Return)) for x in walk_stmts(s.body))]
+        after = [l for l in lps if not always_before(ctx, md, lambda x: x is bdel[0], lambda x, l=l: x.kind == "for" and x.ast is l)]
+        ok = len(after) >= 1 and all(_no_suspension_between(ctx, md, lambda n: n is bdel[0], [x for x in mdf.cfg.nodes if x.kind == "for" and x.ast is l][0]) for l in after)
+        # and every exit of the function passes it
+        if ok:
+            heads = [x for x in mdf.cfg.nodes if x.kind == "for" and any(x.ast is l for l in after)]
+            for p in enumerate_paths(mdf, bdel[0]):
+                if p.end == "exit" and not any(n in heads for n in p.nodes):
+                    ok = False
+    ctx.ob("C16-4", "G5", md, after[0] if after else None, ok, "MultiTierCache.delete invalidates every tier in the step the backing delete lands (a get inside the delete's window may have re-cached the value)")
     # fills of the store-first caches happen in the step the fetch returns
     for rel, q, fetch, fill in ((ST, "SoftTTLCache.get", "self._backing_store.get", "self._store"), (ST, "SoftTTLCache.handle_event", "self._backing_store.get", "self._store"),
                                 (MT, "MultiTierCache.get", "self._backing_store.get", "self._cache_value")):
@@ -623,7 +659,7 @@ def run(ctx: Ctx) -> None:
     rule_dirty(ctx)
     rule_fill(ctx)
     rule_serve(ctx)
-    for r, k in (("C16-1", 8), ("C16-2", 35), ("C16-3", 10), ("C16-4", 10), ("C16-5", 8)):
+    for r, k in (("C16-1", 8), ("C16-2", 35), ("C16-3", 12), ("C16-4", 11), ("C16-5", 8)):
         ctx.floor(r, k)
 
 
@@ -653,7 +689,9 @@ MUTANTS = [
     ("evict-drops-dirty", CS, "                self._write_back_if_dirty(evict_key)\n", "", "C16-3"),
     ("invalidate-drops-dirty", CS, "            self._write_back_if_dirty(key)\n            self._cache_remove(key)", "            self._cache_remove(key)", "C16-3"),
     ("invalidate-all-drops-dirty", CS, "        for key in sorted(self._dirty_keys):\n            self._write_back_if_dirty(key)\n        self._cache.clear()", "        self._cache.clear()", "C16-3"),
-    ("flush-clears-mark-unconditionally", CS, "                if key not in self._cache or self._cache[key] is value:\n                    self._dirty_keys.discard(key)", "                self._dirty_keys.discard(key)", "C16-3"),
+    ("flush-sends-captured-value", CS, "            yield self._backing_store.write_latency\n            if self._write_back_if_dirty(key):\n                flushed += 1", "            value = self._cache[key]\n            yield from self._backing_store.put(key, value)\n            if key not in self._cache or self._cache[key] is value:\n                self._dirty_keys.discard(key)\n            flushed += 1", "C16-3"),
+    ("flush-writes-before-latency", CS, "            yield self._backing_store.write_latency\n            if self._write_back_if_dirty(key):\n                flushed += 1", "            if self._write_back_if_dirty(key):\n                flushed += 1\n            yield self._backing_store.write_latency", "C16-3"),
+    ("multitier-delete-single-invalidation", MT, "        store_existed = yield from self._backing_store.delete(key)\n\n        # Invalidate again now that the delete has landed: a get() that ran while\n        # it was in flight missed every tier, still found the value in the backing\n        # store and cached it in L1, which would be served from then on.\n        for tier in self._tiers:\n            if hasattr(tier, \"invalidate\"):\n                tier.invalidate(key)\n", "        store_existed = yield from self._backing_store.delete(key)\n", "C16-4"),
     ("writeback-mark-before-write", CS, "            self._backing_store.put_sync(key, self._cache[key])\n            self._dirty_keys.discard(key)", "            self._dirty_keys.discard(key)\n            if False:\n                self._backing_store.put_sync(key, self._cache[key])", "C16-3"),
     ("put-writeback-not-marked", CS, "            self._dirty_keys.add(key)\n            yield self._cache_read_latency  # Just cache write latency", "            yield self._cache_read_latency  # Just cache write latency", "C16-3"),
     ("pagecache-flush-clears-after-writeback", PC, "                page.dirty = False\n                yield self._disk_write_latency_s\n                self._dirty_writebacks += 1\n                flushed += 1", "                yield self._disk_write_latency_s\n                page.dirty = False\n                self._dirty_writebacks += 1\n                flushed += 1", "C16-3"),
